@@ -15,7 +15,7 @@ pub fn run(what: &str) {
                 for extra in [0i64, 1, 2, 5, 20, 100] {
                     // one compressed block: 4 literals, one match of 4 bytes at distance dict_content + 4 + extra - ... (FromFar)
                     let spec = FrameSpec {
-                        single_segment: false, window_desc: 0x40, fcs_bytes: 0, checksum: false, dict_id_bytes: 4,
+                        single_segment: false, window_desc: 0x40, fcs_bytes: 0, checksum: false, dict_id_bytes: 4, zero_dict_id: false,
                         blocks: vec![BlockSpec::Comp(CompSpec { literals: vec![1, 2, 3, 4], lit_mode: 0, lit_fmt: 0, huf_shape: 0, huf_fse: false,
                             seqs: vec![SeqSpec { ll: 4, ml: 4, off: if extra == 0 { OffSpec::FromFar(0) } else { OffSpec::Beyond((extra - 1) as u8) } }],
                             count_fmt: 0, modes: [0, 0, 0], tables: [(6, 1), (6, 1), (6, 1)] })],
